@@ -163,6 +163,10 @@ def check_clean_vector(ctx, led, v, prefix_rule="C07"):
         )
         for e in evs:
             if e.kind == "input_order_iter":
+                from .rules_flow import order_matters
+
+                if not order_matters(ctx, v, "clean_vector")[0]:
+                    continue
                 led.violation(
                     prefix_rule + ".emit.order",
                     "%s::%s" % (e.func.qualname if e.func else "?", short(e.node)),
@@ -598,6 +602,10 @@ def check_subvectors(ctx, led, v, rule="C15.emit"):
         )
         for e in evs:
             if e.kind == "input_order_iter":
+                from .rules_flow import order_matters
+
+                if not order_matters(ctx, v, meth)[0]:
+                    continue
                 led.violation(rule + ".order", ck + "::iteration", e.where(), "iterates the parsed map: order follows the input")
     return n
 
